@@ -440,7 +440,20 @@ where
         x: &AssignedBigUint<F>,
         y: &AssignedBigUint<F>,
     ) -> Result<(AssignedBigUint<F>, AssignedBigUint<F>), Error> {
-        let (q_value, r_value) = x.value().zip(y.value()).map(|(x, y)| x.div_rem(&y)).unzip();
+        // A zero divisor admits no valid (q, r): `r < y` below cannot hold. Witness
+        // zeros instead of dividing, so that proving fails on the constraints
+        // rather than panicking here.
+        let (q_value, r_value) = x
+            .value()
+            .zip(y.value())
+            .map(|(x, y)| {
+                if y.bits() == 0 {
+                    (BigUint::default(), BigUint::default())
+                } else {
+                    x.div_rem(&y)
+                }
+            })
+            .unzip();
 
         let q = self.assign_bounded(layouter, q_value, x.nb_bits())?;
         let r = self.assign_bounded(layouter, r_value, y.nb_bits())?;
